@@ -259,7 +259,11 @@ SUITES = {
     "C05": {"suites": [sys_suite("c05-sys", "c05_ok", {"n": 25, "shards": 8}, {"n": 200, "shards": 16}),
                        sys_suite("c05-sys-faults", "c05_ok", {"n": 25, "shards": 6}, {"n": 150, "shards": 16}, extra=["--faults"]),
                        vsys_suite("c05-vsys", "vc05_ok", {"n": 25, "shards": 4}, {"n": 60, "shards": 16})]},
-    "C06": {"suites": [sys_suite("c06-sys", "c06_ok", {"n": 25, "shards": 10}, {"n": 200, "shards": 16})]},
+    "C06": {"suites": [sys_suite("c06-sys", "c06_ok", {"n": 25, "shards": 10}, {"n": 200, "shards": 16}),
+                       # the dispatch context is cancelled between the fetch and the start of the work function: the run ends
+                       # cancelled without starting. The monitor has no label for that: the predicate alone is evaluated
+                       sys_pred_suite("c06-sys-cancel-in-fetch", "c06_ok", {"n": 25, "shards": 4}, {"n": 150, "shards": 16},
+                                      extra=["--cancel-in-fetch"])]},
     "C20": {"suites": [sys_suite("c20-sys", "c20_ok", {"n": 25, "shards": 10}, {"n": 200, "shards": 16}, extra=["--faults"]),
                        # every placement of one fault (quick) and of two faults (thorough) over the scheduler's calls of base scenarios
                        sys_suite("c20-sys-exhaustive", "c20_ok", {"n": 0, "shards": 6, "args": ["--exhaustive", "3"]},
